@@ -51,6 +51,23 @@ type closure struct {
 
 type bad struct{}
 
+// symString is a string some of whose bytes are symbolic.
+type symString struct{ b []value }
+
+func strBytes(v value) ([]value, bool) {
+	switch s := v.(type) {
+	case symString:
+		return s.b, true
+	case string:
+		out := make([]value, len(s))
+		for k := 0; k < len(s); k++ {
+			out[k] = s[k]
+		}
+		return out, true
+	}
+	return nil, false
+}
+
 func sameType(x, y types.Type) bool {
 	if x == nil {
 		return y == nil
@@ -148,6 +165,16 @@ func (i *interpreter) equals(t types.Type, x, y value) value {
 	}
 	if ty, ok := y.(*Term); ok {
 		return simplify(i.p.st().Eq(i.p.st().lift(x), ty))
+	}
+	if _, ok := x.(symString); ok {
+		xb, _ := strBytes(x)
+		yb, _ := strBytes(y)
+		return i.bytesEqual(xb, yb)
+	}
+	if _, ok := y.(symString); ok {
+		xb, _ := strBytes(x)
+		yb, _ := strBytes(y)
+		return i.bytesEqual(xb, yb)
 	}
 	switch x := x.(type) {
 	case bool:
